@@ -96,6 +96,9 @@ pub enum InsertKind {
   /// Private P-256 JWK with `alg: ES256`: fully private and self-consistent, merely a key type the
   /// in-memory store does not support — either outcome is accepted.
   EcEs256,
+  /// Private EC JWK on another curve (`secp256k1`, `P-384`, `P-521`, `BLS12381G1`, `BLS12381G2`; selected by the
+  /// low bits) claiming `alg: EdDSA` (even selector) or `HS256` (odd): never a compatible pair.
+  EcOtherCurve(u8),
 }
 
 #[derive(Debug, Clone, Serialize, Deserialize)]
@@ -187,6 +190,11 @@ fn insert_jwk_json(kind: InsertKind, key: &EdKey) -> Value {
     }
     InsertKind::EcWithEdDsa => j = ec("EdDSA"),
     InsertKind::EcEs256 => j = ec("ES256"),
+    InsertKind::EcOtherCurve(sel) => {
+      const CURVES: [&str; 5] = ["BLS12381G2", "BLS12381G1", "secp256k1", "P-384", "P-521"];
+      j = ec(if sel & 1 == 0 { "EdDSA" } else { "HS256" });
+      j["crv"] = json!(CURVES[(sel >> 1) as usize % CURVES.len()]);
+    }
   }
   j
 }
@@ -800,6 +808,7 @@ fn op_strategy() -> impl Strategy<Value = Op> {
     1 => Just(InsertKind::X25519),
     1 => Just(InsertKind::EcWithEdDsa),
     1 => Just(InsertKind::EcEs256),
+    2 => (0u8..10).prop_map(InsertKind::EcOtherCurve),
   ];
   let pk = prop_oneof![
     8 => Just(PkChoice::Right),
